@@ -58,6 +58,14 @@ impl Session {
     }
 
     fn execute_async(&self, sql: String) -> QueryRunnerResult<QueryResult> {
+        // VACUUM aborts every open transaction: its statements must fail from then on instead of
+        // reading a vacuumed store through a stale snapshot and writing under an aborted id.
+        if !self.finished && !self.ctx.is_active() {
+            return Err(QueryError::Runtime(RuntimeError::Other(format!(
+                "transaction {} has been aborted",
+                self.ctx.tid()
+            ))));
+        }
         let logger = self.logger.clone();
         // Build a temporary context for this thread
         // Cloning the handle creates an invalidated copy of itself that can fo everything but committing  or aborting.
